@@ -185,19 +185,26 @@ def _conv(ctx, p, rng):
         ctx.violation('utpm2dirs:layout', {'D': D, 'P': P, 'shape': shp}); return
     ctx.ok('utpm2dirs', ('u2d',) + cls, exact=True)
     # --- shift by s then -s on the retained part
-    for s in range(-(2 * D + 1), 2 * D + 2):          # also shifts by D and more: nothing is retained, everything is zero
-        if s == 0:
-            continue
+    for s in range(-(2 * D + 1), 2 * D + 2):          # also shifts by D and more: nothing is retained, everything is zero; s = 0: the identity
         u = UTPM(data.copy())
-        a = u.shift(s)
         ref = np.zeros_like(data)
-        if 0 < s < D:
+        if s == 0:
+            ref[...] = data
+        elif 0 < s < D:
             ref[s:] = data[:-s]
         elif -D < s < 0:
             ref[:s] = data[-s:]
-        # the same shift into a buffer of the caller that holds other data, and into the polynomial itself
-        buf = UTPM(np.full(data.shape, 7.5, dtype=data.dtype)); u.shift(s, out=buf)
-        own = UTPM(data.copy()); own.shift(s, out=own)
+        own = UTPM(data.copy())
+        try:
+            # the shift count in the spellings an index computation produces (NumPy integers, unsigned ones for s >= 0)
+            sp = [s, np.int64(s), np.int8(s) if abs(s) < 100 else s, np.uint8(s) if 0 <= s < 200 else np.int32(s)][int(rng.integers(4))]
+            a = u.shift(sp)
+            # the same shift into a buffer of the caller that holds other data, and into the polynomial itself
+            buf = UTPM(np.full(data.shape, 7.5, dtype=data.dtype)); u.shift(s, out=buf)
+            own.shift(s, out=own)
+        except Exception as e:
+            ctx.violation('shift:raises', {'D': D, 'P': P, 'shape': shp, 's': s, 'spelling': type(sp).__name__, 'error': repr(e)[:160],
+                                           'polynomial_passed_as_out_left_intact': bool(_same(own.data, data))}); return
         if not (_same(buf.data, ref) and _same(own.data, ref)):
             ctx.violation('shift:out-buffer', {'D': D, 'P': P, 'shape': shp, 's': s, 'into': 'other buffer' if not _same(buf.data, ref) else 'itself'}); return
         b = a.shift(-s)
@@ -224,9 +231,6 @@ def _conv(ctx, p, rng):
             for fn_name, fn, arg in (('as_utpm', UTPM.as_utpm, elems), ('as_utpm', UTPM.as_utpm, elems.tolist()),
                                      ('as_utpm', UTPM.as_utpm, elemsF), ('as_utpm', UTPM.as_utpm, elemsT),
                                      ('ndarray2utpm', U.ndarray2utpm, elems)):
-                if fn_name == 'ndarray2utpm' and (len(cshape) != 1 or shp != ()):
-                    ctx.skip('ndarray2utpm: only 1-D containers of scalar polynomials are accepted by the helper')
-                    continue
                 if fn_name == 'ndarray2utpm' and kind == 'nonfinite':
                     ctx.skip('ndarray2utpm:nonfinite (zeros(dtype=UTPM) scales by the first data element)')
                     continue
@@ -258,7 +262,8 @@ def _conv(ctx, p, rng):
     if shp == () and kind in ('random', 'integers'):
         n_el = 4
         raw2 = [_vals(rng, (D, P), kind) for _ in range(n_el)]
-        consts = {1: 2.5, 3: np.float64(-0.75)} if kind == 'random' else {2: 7}
+        consts = [{1: 2.5, 3: np.float64(-0.75)}, {0: 1.5, 2: np.float64(-0.75)}][int(rng.integers(2))] if kind == 'random' else [{2: 7}, {0: 7}][int(rng.integers(2))]
+        # (a constant may also come first: [1.0, x] as well as [x, 1.0])
         cont = np.empty(n_el, dtype=object)
         for i in range(n_el):
             cont[i] = consts[i] if i in consts else UTPM(raw2[i].copy())
@@ -299,15 +304,30 @@ def _conv(ctx, p, rng):
             r_, c_ = int(rng.integers(2)), int(rng.integers(2))
             B[r_][c_][:, 1:] = B[r_][c_][:, :1]
             blocks[r_, c_] = UTPM(B[r_][c_][:, :1].copy())
-        y = UTPM.combine_blocks(blocks)
-        ok = y.data.shape == (D, P, r1 + r2, c1 + c2)
-        if ok:
-            for d in range(D):
-                for pp in range(P):
-                    ok = ok and _same(y.data[d, pp], np.block([[b[d, pp] for b in row] for row in B]))
-        if not ok:
-            ctx.violation('combine_blocks:layout', {'D': D, 'P': P, 'shape': shp}); return
+        for form, arg in (('object array', blocks), ('list of lists (the form the docstring shows)', [[blocks[0, 0], blocks[0, 1]], [blocks[1, 0], blocks[1, 1]]])):
+            try:
+                y = UTPM.combine_blocks(arg)
+            except Exception as e:
+                ctx.violation('combine_blocks:raises', {'D': D, 'P': P, 'shape': shp, 'container': form, 'error': repr(e)[:160]}); return
+            ok = y.data.shape == (D, P, r1 + r2, c1 + c2)
+            if ok:
+                for d in range(D):
+                    for pp in range(P):
+                        ok = ok and _same(y.data[d, pp], np.block([[b[d, pp] for b in row] for row in B]))
+            if not ok:
+                ctx.violation('combine_blocks:layout', {'D': D, 'P': P, 'shape': shp, 'container': form}); return
         ctx.ok('combine_blocks', ('cb',) + cls, exact=True)
+    # --- FtoJT / JTtoF (directional derivatives <-> transposed Jacobian): the coefficients that both forms hold come back bit for bit
+    if D >= 2:
+        try:
+            jt = UTPM(data.copy()).FtoJT()
+            back = jt.JTtoF()
+        except Exception as e:
+            ctx.violation('FtoJT_JTtoF:raises', {'D': D, 'P': P, 'shape': shp, 'error': repr(e)[:160]}); return
+        if not (jt.data.shape == (D - 1, 1, P) + shp and _same(jt.data.reshape((D - 1, P) + shp), data[1:]) and back.data.shape == (D, P) + shp
+                and _same(back.data[:D - 1], data[1:])):
+            ctx.violation('FtoJT_JTtoF:value', {'D': D, 'P': P, 'shape': shp, 'vals': kind, 'dtype_in': str(data.dtype), 'dtype_back': str(back.data.dtype)}); return
+        ctx.ok('FtoJT_JTtoF', ('jt',) + cls, exact=True)
     # --- coeff_op: the selected coefficients, reshaped like numpy reshapes (row-major), whatever the memory layout of the
     # stored coefficients and whichever part is selected
     if len(shp) >= 1:
